@@ -24,6 +24,17 @@ def regenerate():
     return ["Gen/Spaces.v"]
 
 
+def pack(data):
+    """file bytes for a replay: zlib + base64 (page-truncated binaries are tens of kilobytes)"""
+    import base64, zlib
+    return base64.b64encode(zlib.compress(data, 9)).decode()
+
+
+def unpack(z):
+    import base64, zlib
+    return zlib.decompress(base64.b64decode(z))
+
+
 def family(t):
     return "virtual" if t == "v" else ("probing" if int(t) < 2 else "trie")
 
@@ -146,7 +157,8 @@ def run(ctx):
                 flags.append("build=" + os.path.join(ctx.scratch, "out%d.bin" % len(cases)))
             add("arpa", data, names, t, flags)
     # binary mutants
-    bins = make_binaries(ctx, bases[:1] + bases[2:2 + ctx.pick(1, 4)], build_drv)
+    big = ("big", c10gen.render(c10gen.gen_big_model(rng)))
+    bins = make_binaries(ctx, bases[:1] + bases[2:2 + ctx.pick(1, 4)] + [big], build_drv)
     n_bin = ctx.pick(420, 20000)
     for _ in range(n_bin):
         name, bt, data = rng.choice(bins)
@@ -262,7 +274,7 @@ def run(ctx):
         data = open(m["path"], "rb").read()
         ctx.report(signature_of(m["source"], m["type"], v), msg,
                    {"source": m["source"], "type": m["type"], "flags": m["flags"], "mutations": m["mutations"], "verdict": v,
-                    "file_hex": data.hex() if len(data) <= 20000 else None, "file_len": len(data)})
+                    "file_z": pack(data), "file_len": len(data)})
     if not fails:
         if mismatches:
             m, v, mo = mismatches[0]
@@ -270,7 +282,7 @@ def run(ctx):
             ctx.report("correspondence:%s:%s" % (m["source"], family(m["type"])), "extracted loader model and implementation disagree on accept / reject or on the exception class; "
                        "the specification oracle accepts the implementation's behaviour",
                        {"source": m["source"], "type": m["type"], "flags": m["flags"], "mutations": m["mutations"], "verdict": v, "model": mo,
-                        "n_mismatches": len(mismatches), "file_hex": data.hex() if len(data) <= 20000 else None}, found=False)
+                        "n_mismatches": len(mismatches), "file_z": pack(data)}, found=False)
         elif model_broken:
             ctx.report("model-broken", "executable model no longer builds", {"log": model_broken[-2000:]}, found=False)
         ctx.report_proof(pres)
@@ -282,10 +294,12 @@ def replay(ctx, obj):
     r = obj["replay"]
     drv = vlib.compile_driver("c10_driver", DRV, variant="asan", opt="-O1")
     p = os.path.join(ctx.scratch, "replay." + ("arpa" if r["source"] == "arpa" else "bin"))
-    open(p, "wb").write(bytes.fromhex(r["file_hex"]))
+    open(p, "wb").write(unpack(r["file_z"]) if "file_z" in r else bytes.fromhex(r["file_hex"]))
     flags = [f for f in r["flags"] if not f.startswith("build=")] + (["build=" + p + ".out"] if any(f.startswith("build=") for f in r["flags"]) else [])
     v = run_cases(drv, [(r["type"], p, 1, flags)], 120)[0]
     print("type:", r["type"], "flags:", flags, "mutations:", r["mutations"], "\nverdict:", v, "\noracle:", oracle(v) or "ok")
+    if r.get("model"):
+        print("model at the time of the report:", r["model"], "(correspondence; the specification oracle alone decides the exit status)")
     import shutil
     shutil.rmtree(ctx.scratch, ignore_errors=True)
     return 1 if oracle(v) else 0
